@@ -427,6 +427,32 @@ func init() {
 						}
 					}
 				}
+				// framing characters inside otherwise well-formed structured values (mailbox, URL, date-like), with every
+				// code-like element of the same tag set to every code of the same length: a validator that depends on a code
+				// of its tag is reached whichever code the base message happens to hold
+				for _, h := range []string{"a*b@example.com", "A*B <x@example.com>", "ap*{3320}X@example.com", "http://x.example/*", "x{1510}@example.com"} {
+					if w >= 0 && len(h) > w {
+						continue
+					}
+					for j := range tt.Elems {
+						if j == i || !codeLike(b.vals[j]) {
+							continue
+						}
+						for _, code := range valuePool {
+							if len(code) != len(b.vals[j]) || !codeLike(code) || code == b.vals[j] {
+								continue
+							}
+							for _, sn := range snames {
+								m := samples[sn].Clone()
+								m.Tags[tt.Name] = tt.New(b.marker, setAt(setAt(b.vals, i, h), j, code))
+								if m.Validate() == "ok" {
+									msgs = append(msgs, m)
+									break
+								}
+							}
+						}
+					}
+				}
 			}
 		}
 		for _, m := range msgs {
@@ -942,4 +968,16 @@ func verdictOnly(res string) string {
 		return "accepted"
 	}
 	return "rejected"
+}
+
+func codeLike(v string) bool {
+	if len(v) < 2 || len(v) > 4 {
+		return false
+	}
+	for i := 0; i < len(v); i++ {
+		if v[i] < 'A' || v[i] > 'Z' {
+			return false
+		}
+	}
+	return true
 }
